@@ -36,7 +36,7 @@ def run(ctx):
                                "a request waits for another request's response although the link is free")
         traces.append(tr)
     hostdrive.compare(ctx, traces)
-    run_generic(ctx, hostdrive.monitor_c14, ctx.scale(100, 2500), max_live=4 if False else None or 3,
+    run_generic(ctx, hostdrive.monitor_c14, ctx.scale(250, 2500), max_live=4 if False else None or 3,
                 weights=dict(start=6, ack=6, rsp=3, tick=2, cancel=1.5, badack=0.5, close=0.05, lost=0.05), kinds="GWBDWBZ")
 
 
